@@ -252,6 +252,18 @@ def run_hub(case):
     env = lab.env
     n = case["n"]
     eps = [Rec(f"ep{i}") for i in range(n)]
+    resp = case.get("responder")
+    replies = []
+    if resp is not None and resp < n:
+        # a station that answers at once, from inside its own put(): the hub is re-entered while it is still repeating the request
+        class Responder(Rec):
+            def put(self, pkt):
+                super().put(pkt)
+                if pkt.payload and pkt.payload[0] == "p" and self.out is not None:
+                    rep = Packet(0.0, 40, 1000 + pkt.packet_id, src=self.name, flow_id=0, payload=("reply", pkt.packet_id))
+                    replies.append((pkt, rep))
+                    self.out.put(rep)
+        eps[resp] = Responder(f"ep{resp}")
     use_ports = case["ports"]
     ports = [Rec(f"pd{i}") if (use_ports and case["port_mask"][i]) else None for i in range(n)]
     # port devices forward to their endpoint (add_endpoint wires port.out = endpoint)
@@ -287,6 +299,15 @@ def run_hub(case):
                 via = sum(1 for p in ports[j].got if p is pkt)
                 if via != want:
                     raise Violation("C18.hub", f"endpoint ep{j} has a port device but the packet passed it {via} time(s)", "C18.hub/port")
+        for req, rep in replies:
+            if req is pkt:
+                classes.add("endpoint replies from inside put()")
+                for j, e in enumerate(eps):
+                    cnt = sum(1 for p in e.got if p is rep)
+                    want = 0 if j == resp else 1
+                    if cnt != want:
+                        raise Violation("C18.hub", f"hub with {n} endpoints: ep{resp} answered the packet from {src} at once; endpoint ep{j} "
+                                                   f"received the reply {cnt} time(s), expected {want}", "C18.hub/reentrant")
         e_out = [e.out for e in eps]
         if any(o is not hub for o in e_out):
             raise Violation("C18.hub", "an attached endpoint's out is not the hub", "C18.hub/wiring")
@@ -615,7 +636,8 @@ def hub_strategy(tier):
     return st.integers(0, 6).flatmap(lambda n: st.fixed_dictionaries({
         "n": st.just(n), "ports": st.booleans(), "ctor": st.booleans(),
         "port_mask": st.lists(st.booleans(), min_size=n, max_size=n),
-        "senders": st.lists(st.integers(0, n), min_size=1, max_size=4)}))
+        "senders": st.lists(st.integers(0, n), min_size=1, max_size=4),
+        "responder": st.one_of(st.none(), st.integers(0, max(0, n - 1)))}))
 
 
 def splitter_strategy(tier):
